@@ -948,9 +948,19 @@ static char *detect_include_guard(Token *tok) {
   return NULL;
 }
 
+// A file may be reached under several spellings of its path
+// ("a.h", "./a.h", "/dir/a.h"), so "#pragma once" is recorded
+// by file identity.
+static char *file_identity(char *path) {
+  struct stat st;
+  if (stat(path, &st))
+    return path;
+  return format("%ld:%ld", (long)st.st_dev, (long)st.st_ino);
+}
+
 static Token *include_file(Token *tok, char *path, Token *filename_tok, int next_idx) {
   // Check for "#pragma once"
-  if (hashmap_get(&pragma_once, path))
+  if (hashmap_get(&pragma_once, file_identity(path)))
     return tok;
 
   // If we read the same file before, and if the file was guarded
@@ -1131,7 +1141,7 @@ static Token *preprocess2(Token *tok) {
     }
 
     if (equal(tok, "pragma") && equal(tok->next, "once")) {
-      hashmap_put(&pragma_once, tok->file->name, (void *)1);
+      hashmap_put(&pragma_once, file_identity(tok->file->name), (void *)1);
       tok = skip_line(tok->next->next);
       continue;
     }
